@@ -75,6 +75,14 @@ def corpus():
     texts["F5"] = chart_text(res=192, song=['Name = "F5"'], sync=sync, events=ev,
                              tracks={"HardDrums": ["0 = N 1 0", "50 = N 2 0"], "ExpertSingle": ["0 = N 0 0", "64 = N 1 0", "128 = N 2 0", "100 = N 3 0", "100 = N 5 0"]})
     texts["F6"] = chart_text(res=192, song=['Name = "F6"'], sync=sync, events=ev, tracks={"ExpertSingle": g_a}) + "stray line\n[Events2]\n{\n}\n"
+    # T1..T8: the same SHAPE (three tempo events, two time signatures, the same events and notes) with the tempo changes on other
+    # ticks: charts that are freed at once let a later chart's objects reuse their addresses, charts that stay alive share
+    # whatever is keyed weakly - both lifetimes occur in the histories below
+    for k in range(8):
+        a, b = 40 + 37 * k, 300 + 91 * ((5 * k) % 8)
+        texts[f"T{k + 1}"] = chart_text(res=192, song=[f'Name = "T"'], sync=["0 = TS 4", "0 = B 120000", f"{a} = B 90500", f"{b} = B 200000", f"{b} = TS 3"],
+                                        events=['0 = E "section a"', '100 = E "lyric b"', '400 = E "c"', '900 = E "lyric d"'],
+                                        tracks={"ExpertSingle": ["0 = N 0 0", "64 = N 1 500", "128 = S 2 600", "330 = N 3 0", "700 = N 4 10", "1000 = E solo"]})
     wants = {"As": [["DRUMS", "HARD"], ["KEYS", "EASY"]],
              "Ms": [["KEYS", "EXPERT"], ["GUITAR", "EASY"], ["BASS", "HARD"], ["GUITAR", "EXPERT"], ["DRUMS", "EXPERT"], ["GUITAR", "MEDIUM"]]}
     return texts, wants
@@ -193,11 +201,19 @@ def run(ctx):
     seqs += [["Ms"], ["M"], ["Ms", "M", "Ms"], ["Ms"], ["Ms"], ["Ms"], ["Ms"], ["Ms"], ["M", "Ms"], ["Z", "A"], ["Z", "B", "A"], ["A", "Z", "A"], ["Z", "X", "Z", "A"], ["Z", "C", "D"], ["As", "A", "As"], ["A", "As"], ["X", "As", "A"], ["Y", "X", "Y", "A", "B", "A"], ["B", "A", "B", "A", "C", "D", "C"]]
     for _ in range(ctx.pick(40, 600)):
         seqs.append([r.choice(names) for _ in range(r.randrange(4, 9))])
+    # long histories over the same-shape family, every chart freed at once / every chart kept alive
+    tfam = [f"T{k + 1}" for k in range(8)]
+    nlong = ctx.pick(6, 60)
+    longs = [[r.choice(tfam + ["A", "S1", "F1"]) for _ in range(r.choice([48, 96]))] for _ in range(nlong)]
+    seqs += longs
+    keep_flags = [False] * (len(seqs) - nlong) + [bool(k % 2) for k in range(nlong)]
+    for k in range(0, len(seqs) - nlong, 3):
+        keep_flags[k] = True
     with cf.ThreadPoolExecutor(max_workers=WORKERS) as ex:
-        outs = list(ex.map(lambda s: run_jobs(texts, wants, [{"kind": "history", "seq": s}])[0], seqs))
+        outs = list(ex.map(lambda sk: run_jobs(texts, wants, [{"kind": "history", "seq": sk[0], "keep": sk[1]}])[0], list(zip(seqs, keep_flags))))
     hist_outs = outs
     for k, (s, o) in enumerate(zip(seqs, outs)):
-        add(f"h{k}", "history", o, {"history": s})
+        add(f"h{k}", "history", o, {"history": s, "keep": keep_flags[k]})
     ctx.sample({"origin": "history", "seq": seqs[len(seqs) // 3], "parses": outs[len(seqs) // 3]["parses"]})
     # ---- schedules generated by TLC (Process.tla interleavings), replayed by the deterministic scheduler
     model_to_real = {"A": "A", "B": "B", "X": "X"}
@@ -309,7 +325,7 @@ def replay(ctx, obj):
     names = list(texts)
     want = {n: run_jobs(texts, wants, [{"kind": "history", "seq": [n]}], hashseed="0")[0]["parses"][0]["got"] for n in names}
     if obj["kind"] == "history":
-        job = {"kind": "history", "seq": d["history"]}
+        job = {"kind": "history", "seq": d["history"], "keep": d.get("keep", False)}
     elif obj["kind"] == "stress":
         job = {"kind": "stress", "threads": d["threads"], "switch": 1e-6}
     else:
